@@ -22,9 +22,10 @@ PLACEMENTS = [
     ("query-decoy", "https://evil.fr/p?u={}D", None),
     ("fragment-decoy", "evil.fr/#{}@D", None),
     ("upper", "HTTP://WWW.{}D/", "upper"),
+    ("userinfo-at", "http://j@{}@www.D/some/page", None),
 ]
 BOUNDS = {
-    "quick": "site predicates: 9 domains x 9 placements of a symbolic hole of length 0..2 (glued to the domain on the left / right, decoys in userinfo / path / query / fragment, upper case), string and pre-parsed form; "
+    "quick": "site predicates: 9 domains x 10 placements of a symbolic hole of length 0..2 (glued to the domain on the left / right, decoys in userinfo / path / query / fragment, upper case, a userinfo that itself contains '@'), string and pre-parsed form; "
              "youtube / shortener / should_resolve: 10 listed domains x 5 placements, holes 0..2, plus the 'l.' rule with a symbolic path; path-only and host-only predicates: pairs of urls sharing the documented component, holes 0..2",
     "thorough": "holes of length 0..3",
 }
